@@ -13,6 +13,7 @@
 (*               fails; {} = f is not sent in the fault-free run                *)
 (* Per fetch: pending -> skipped                      (errored dependency)      *)
 (*            ... -> loaded -> partial                (data + errors)           *)
+(*            pending -> prepared -> denied -> failed (rate limited, never sent) *)
 (*            pending -> prepared -> noload -> empty  (nothing to ask for)      *)
 (*            pending -> prepared -> inflight -> loaded|loadedErr -> merged|failed *)
 (* The same actions are used by the model checker (MC_FetchExec), the           *)
@@ -21,7 +22,9 @@
 EXTENDS FetchTree
 
 Kinds == {"Transport", "Non2xxNonJSON", "EmptyBody", "NonJSON", "ErrorsNoData", "DataNull", "WrongEntityCount",
-          "PartialData", "Non2xxJSON"}
+          "PartialData", "Non2xxJSON", "RateLimited"}
+\* RateLimited: the fetch is denied by the rate limiter (resolve.Context.SetRateLimiter) in the pre-fetch validation: nothing
+\*              is sent, the denial is reported; for isolation purposes a denied fetch is a failed fetch.
 \* PartialData: 200 with data AND errors - the answer is merged, its errors are forwarded; what the subgraph nulled is missing.
 \* Non2xxJSON:  a 5xx status with a complete, valid GraphQL body.  GraphQL-over-HTTP lets a client trust such a body,
 \*              so the gateway may use it (merged, nothing reported) or reject it (failed, reported) - but consistently.
@@ -79,9 +82,17 @@ NoLoad(f) ==
   /\ st' = [st EXCEPT ![f] = "noload"]
   /\ UNCHANGED <<inst, errored, ents, sent, rep>>
 
+\* preparePhase, validatePreFetch: the rate limiter denies the rendered request (skipLoad, rateLimitRejected)
+Deny(f) ==
+  /\ st[f] = "prepared"
+  /\ inst.fault[f] = "RateLimited"
+  /\ st' = [st EXCEPT ![f] = "denied"]
+  /\ UNCHANGED <<inst, errored, ents, sent, rep>>
+
 \* loadPhase: the request leaves with entity set E
 Send(f, E) ==
   /\ st[f] = "prepared"
+  /\ inst.fault[f] # "RateLimited"
   /\ st' = [st EXCEPT ![f] = "inflight"]
   /\ ents' = [ents EXCEPT ![f] = E]
   /\ sent' = sent \cup {f}
@@ -97,8 +108,9 @@ LoadEnd(f) ==
 
 \* mergePhase [db]: k = number of entries mergeResult added to the errors of the response
 Merge(f, k) ==
-  /\ st[f] \in {"loaded", "loadedErr", "noload"}
+  /\ st[f] \in {"loaded", "loadedErr", "noload", "denied"}
   /\ st' = [st EXCEPT ![f] = CASE st[f] = "noload" -> "empty"
+                                [] st[f] = "denied" -> "failed"
                                 [] inst.fault[f] = "ok" -> "merged"
                                 [] inst.fault[f] = "PartialData" -> "partial"
                                 [] inst.fault[f] = "Non2xxJSON" -> (IF k = 0 THEN "merged" ELSE "failed")
@@ -112,7 +124,9 @@ AllowedEnts(f) == IF Clean(f) THEN {inst.e0[f]} ELSE SUBSET inst.e0[f]
 StepOf(f) ==
   \/ PrepareSkip(f)
   \/ Prepare(f)
-  \/ (\E E \in AllowedEnts(f) : IF E = {} THEN NoLoad(f) ELSE Send(f, E))
+  \/ (\E E \in AllowedEnts(f) : IF E = {} THEN NoLoad(f)
+                                ELSE IF inst.fault[f] = "RateLimited" THEN Deny(f) ELSE Send(f, E))
+  \/ (st[f] = "denied" /\ \E k \in 1..2 : Merge(f, k))
   \/ LoadEnd(f)
   \/ (st[f] = "noload" /\ Merge(f, 0))
   \/ (st[f] \in {"loaded", "loadedErr"} /\ inst.fault[f] = "ok" /\ Merge(f, 0))
@@ -128,6 +142,8 @@ Next == \E f \in Ids : StepOf(f)
 
 \* a request that is sent under faults is also sent fault-free, with at most a subset of the entities
 NoFabrication == \A f \in sent : inst.e0[f] # {} /\ ents[f] \subseteq inst.e0[f]
+\* a denied request never reaches its subgraph
+DeniedNotSent == \A f \in Ids : st[f] = "denied" => f \notin sent
 
 \* a fetch none of whose transitive dependencies is faulty is neither skipped nor starved nor changed
 NoFaultyAnc(f) == \A a \in Anc(f) : inst.fault[a] = "ok"
@@ -151,7 +167,7 @@ ErrorReported == (AllFetchesDone /\ Failed # {}) => \E f \in Failed : rep[f] >= 
 DepsSettled == \A f \in Ids : st[f] # "pending" => \A d \in inst.deps[f] : Done(d)
 
 TypeOK ==
-  /\ st \in [Ids -> {"pending", "skipped", "prepared", "noload", "empty", "inflight", "loaded", "loadedErr", "failed", "merged", "partial"}]
+  /\ st \in [Ids -> {"pending", "skipped", "prepared", "noload", "empty", "denied", "inflight", "loaded", "loadedErr", "failed", "merged", "partial"}]
   /\ errored \subseteq Ids
   /\ sent \subseteq Ids
 
